@@ -39,6 +39,17 @@ func mustURL(s string) *url.URL {
 	return u
 }
 
+// upsertScribble registers a server and then overwrites the URL value it handed over, as a caller
+// does that reuses one url.URL variable for the next registration: the pool keeps what was registered.
+func upsertScribble(b interface {
+	UpsertServer(*url.URL, ...roundrobin.ServerOption) error
+}, name string, opts ...roundrobin.ServerOption) error {
+	u := mustURL(name)
+	err := b.UpsertServer(u, opts...)
+	u.Scheme, u.Host, u.Path, u.RawQuery = "https", "reused.invalid:1", "/next", "registration=1"
+	return err
+}
+
 type srv struct {
 	name string
 	w    int
@@ -145,10 +156,10 @@ func buildPool(t *rapid.T, next http.Handler, maxW int, opts ...roundrobin.LBOpt
 		}
 		for i := 0; i < nBig; i++ {
 			name := serverName(i)
-			if err := rr.UpsertServer(mustURL(name), roundrobin.Weight(1)); err != nil {
+			if err := upsertScribble(rr, name, roundrobin.Weight(1)); err != nil {
 				t.Fatalf("upsert: %v", err)
 			}
-			if err := rr.UpsertServer(mustURL(name), roundrobin.Weight(live[i])); err != nil {
+			if err := upsertScribble(rr, name, roundrobin.Weight(live[i])); err != nil {
 				t.Fatalf("upsert: %v", err)
 			}
 			model = append(model, srv{name, live[i]})
@@ -159,7 +170,7 @@ func buildPool(t *rapid.T, next http.Handler, maxW int, opts ...roundrobin.LBOpt
 	for i := 0; i < nInit; i++ {
 		name := serverName(i)
 		w := genWeight(t, maxW)
-		if err := rr.UpsertServer(mustURL(name), roundrobin.Weight(w)); err != nil {
+		if err := upsertScribble(rr, name, roundrobin.Weight(w)); err != nil {
 			t.Fatalf("upsert: %v", err)
 		}
 		mw := w
@@ -182,7 +193,7 @@ func buildPool(t *rapid.T, next http.Handler, maxW int, opts ...roundrobin.LBOpt
 		hop := rapid.IntRange(0, 3).Draw(t, "hop")
 		if hop == 3 { // drain every member to weight 0, try a few selections, maybe re-enable one
 			for i := range model {
-				if err := rr.UpsertServer(mustURL(model[i].name), roundrobin.Weight(0)); err != nil {
+				if err := upsertScribble(rr, model[i].name, roundrobin.Weight(0)); err != nil {
 					t.Fatalf("upsert: %v", err)
 				}
 				model[i].w = 0
@@ -200,7 +211,7 @@ func buildPool(t *rapid.T, next http.Handler, maxW int, opts ...roundrobin.LBOpt
 		switch hop {
 		case 0, 1: // upsert (add or re-weight)
 			w := genWeight(t, maxW)
-			if err := rr.UpsertServer(mustURL(name), roundrobin.Weight(w)); err != nil {
+			if err := upsertScribble(rr, name, roundrobin.Weight(w)); err != nil {
 				t.Fatalf("upsert: %v", err)
 			}
 			if idx >= 0 {
@@ -400,7 +411,7 @@ func windowsCase(t *rapid.T) {
 			// (it has no record of the servers); the others are registered through the rebalancer too
 			if prefilled = rapid.Bool().Draw(t, "prefilledBeforeWrapping"); !prefilled {
 				for _, s := range model {
-					if err := rb.UpsertServer(mustURL(s.name), roundrobin.Weight(s.w)); err != nil {
+					if err := upsertScribble(rb, s.name, roundrobin.Weight(s.w)); err != nil {
 						t.Fatalf("rebalancer upsert: %v", err)
 					}
 				}
@@ -538,7 +549,7 @@ func windowsCase(t *rapid.T) {
 				case 1:
 					err = rr.UpsertServer(nil)
 				default:
-					err = rr.UpsertServer(mustURL("http://refused-newcomer"), roundrobin.Weight(-1))
+					err = upsertScribble(rr, "http://refused-newcomer", roundrobin.Weight(-1))
 				}
 				if err == nil {
 					t.Fatalf("an administration call that must be refused succeeded")
